@@ -218,7 +218,7 @@ def main():
     t0 = time.time()
     from checks.c08 import HIST_OPS
 
-    maxlen, cht = (6, 900) if args.thorough else (4, 300)  # generous: the run stops as soon as all paths are confirmed
+    maxlen, cht = (6, 900) if args.thorough else (3, 300)  # generous: the run stops as soon as all paths are confirmed
     items = [("ch", "add_path_contract", maxlen, cht), ("ch", "add_path_reachability_twin", 3, 60)]
     items += [("step", i) for i in range(len(H.operations()))]
     items += [("bad", i, wo, wd) for i in range(len(H.malformed_paths())) for wo in (False, True) for wd in (False, True)]
